@@ -848,7 +848,7 @@ func (p *Policy) sanitizeStyles(attr html.Attribute, elementName string) html.At
 
 	//Add semi-colon to end to fix parsing issue
 	attr.Val = strings.TrimRight(attr.Val, " ")
-	if len(attr.Val) > 0 && attr.Val[len(attr.Val)-1] != ';' {
+	if len(attr.Val) > 0 && (attr.Val[len(attr.Val)-1] != ';' || escapedSemicolonSuffix(attr.Val)) {
 		attr.Val = attr.Val + ";"
 	}
 	decs, err := parser.ParseDeclarations(attr.Val)
@@ -975,6 +975,16 @@ func cssValueSelfContained(value string) bool {
 		}
 	}
 	return len(closers) == 0
+}
+
+// escapedSemicolonSuffix reports whether the semi-colon that ends the value is
+// escaped by a backslash and therefore does not end the last declaration
+func escapedSemicolonSuffix(value string) bool {
+	backslashes := 0
+	for i := len(value) - 2; i >= 0 && value[i] == '\\'; i-- {
+		backslashes++
+	}
+	return backslashes%2 == 1
 }
 
 func (p *Policy) allowNoAttrs(elementName string) bool {
